@@ -162,7 +162,7 @@ pub fn ranges(r: &dyn Runner, tier: Tier, st: &St, with_splice: bool, out: &mut 
 /// std adaptors on the library's iterators (nth / nth_back / skip / step_by / rev / take / last / count ...)
 pub fn adaptors(_r: &dyn Runner, _tier: Tier, st: &St, ranges_only: bool, out: &mut Vec<Edge>) {
     let len = st.len as usize;
-    for op in 0..crate::exec_range::N_ADAPT {
+    for op in crate::exec_range::adapt_ops() {
         for api in [Api::Erased, Api::Typed] {
             for a in 0..=len { for b in a..=len {
                 out.push(Edge::DrainAdapt { api, a: a as u8, b: b as u8, op });
@@ -254,6 +254,8 @@ pub fn handles(_r: &dyn Runner, _tier: Tier, st: &St, out: &mut Vec<Edge>) {
         for lhs in 0..N_SWAP_KINDS { for rhs in 0..N_SWAP_KINDS { out.push(Edge::Swap { lhs, rhs, i }); } }
     }
     if len == 0 { for lhs in [0u8, 1, 5] { for rhs in [0u8, 1, 5] { out.push(Edge::Swap { lhs, rhs, i: 0 }); } } }
+    // the i-th iterator item reached positionally (nth / nth_back / skip / rev().skip), also after advancing the front
+    for op in crate::exec_range::adapt_ops() { if (op >> 3) & 7 <= 3 { for api in [Api::Erased, Api::Typed] { for kind in [IterKind::Iter, IterKind::IterMut] { out.push(Edge::IterAdapt { api, kind, op }); } } } }
 }
 
 /// type admission (C04)
@@ -396,7 +398,7 @@ pub fn reports(prop: Prop, class: Class, e: &Edge) -> bool {
         Prop::C06 | Prop::C07 => matches!(class, Class::Own | Class::Vec | Class::Mem),
         Prop::C10 => matches!(class, Class::Cap | Class::Vec),
         Prop::C11 => matches!(class, Class::Cap | Class::Vec | Class::Alloc),
-        Prop::C12 => matches!(class, Class::Vec | Class::Mem),
+        Prop::C12 => matches!(class, Class::Vec | Class::Mem | Class::Cap),
         Prop::C17 => matches!(class, Class::Vec | Class::Type | Class::Own | Class::Alloc),
         Prop::C14 => class == Class::Iter,
         Prop::C18 => class == Class::Alloc,
